@@ -146,6 +146,10 @@ def run(facts, tier):
     # bindings agree (C10-5)
     from props import c10
     c10.c10_5(facts, res)
+    # a query refreshes cached order keys of the nodes it touches: the cache discipline decides whether a query changes the
+    # result of a later one (C14-8)
+    from props import c14
+    c14.c14_8(facts, res, "R19-5")
     # equal documents: item equality is structural
     from props import c04
     c04.structural_eq(facts, res, "R19-4")
